@@ -97,6 +97,7 @@ package tcell
 //@ pred cbwf(cb *CellBuffer) = cb.w >= 0 && cb.h >= 0 && len(cb.cells) == cb.w*cb.h
 //@ pred inRange(cb *CellBuffer, x int, y int) = x >= 0 && y >= 0 && x < cb.w && y < cb.h
 //@ pred sameCurr(a cell, b cell) = a.currMain == b.currMain && a.currComb == b.currComb && a.currStyle == b.currStyle && a.width == b.width
+//@ pred cbwidths(cb *CellBuffer) = forall k int :: 0 <= k && k < len(cb.cells) ==> cb.cells[k].width >= 0
 //@ pred sameLastTail(a cell, b cell) = a.lastStyle == b.lastStyle && a.lastComb == b.lastComb
 //@ pred sameButLastMain(a cell, b cell) = sameCurr(a, b) && sameLastTail(a, b) && a.lock == b.lock
 //@ pred shapeKept(cb *CellBuffer, w0 int, h0 int, c0 []cell) = cb.w == w0 && cb.h == h0 && cb.cells == c0
@@ -121,6 +122,7 @@ package tcell
 //@ func (*CellBuffer).SetDirty
 //@   arith math
 //@   requires cbwf(cb)
+//@   let wd0 = cbwidths(cb)
 //@   ensures [shape] shapeKept(cb, old(cb.w), old(cb.h), old(cb.cells))
 //@   ensures [outside] !inRange(cb, x, y) ==> forall k int :: 0 <= k && k < len(cb.cells) ==> cb.cells[k] == old(cb.cells[k])
 //@   ensures [others] forall k int :: 0 <= k && k < len(cb.cells) && k != y*cb.w+x ==> cb.cells[k] == old(cb.cells[k])
@@ -132,11 +134,13 @@ package tcell
 //@              cb.cells[y*cb.w+x].currComb == old(cb.cells[y*cb.w+x].currComb) && cb.cells[y*cb.w+x].currStyle == old(cb.cells[y*cb.w+x].currStyle) &&
 //@              cb.cells[y*cb.w+x].width == old(cb.cells[y*cb.w+x].width) && cb.cells[y*cb.w+x].lock == old(cb.cells[y*cb.w+x].lock)
 //@   ensures [notdirty] inRange(cb, x, y) && !dirty ==> !isDirty(cb.cells[y*cb.w+x])
+//@   ensures [widths] wd0 ==> cbwidths(cb)
 //@   modifies cb.cells[*]
 
 //@ func (*CellBuffer).Invalidate
 //@   arith math
 //@   requires cbwf(cb)
+//@   let wd0 = cbwidths(cb)
 //@   ensures [shape] shapeKept(cb, old(cb.w), old(cb.h), old(cb.cells))
 //@   ensures [all] forall k int :: 0 <= k && k < len(cb.cells) ==> cb.cells[k].lastMain == 0 && sameButLastMain(cb.cells[k], old(cb.cells[k]))
 //@   ensures [dirty] forall k int :: 0 <= k && k < len(cb.cells) && !cb.cells[k].lock ==> isDirty(cb.cells[k])
@@ -144,25 +148,30 @@ package tcell
 //@           invariant [done] forall k int :: 0 <= k && k <= rangeindex ==> cb.cells[k].lastMain == 0 && sameButLastMain(cb.cells[k], old(cb.cells[k]))
 //@           invariant [rest] forall k int :: rangeindex < k && k < len(cb.cells) ==> cb.cells[k] == old(cb.cells[k])
 //@           decreases len(cb.cells) - rangeindex
+//@   ensures [widths] wd0 ==> cbwidths(cb)
 //@   modifies cb.cells[*].lastMain
 
 //@ func (*CellBuffer).LockCell
 //@   arith math
 //@   requires cbwf(cb)
+//@   let wd0 = cbwidths(cb)
 //@   ensures [shape] shapeKept(cb, old(cb.w), old(cb.h), old(cb.cells))
 //@   ensures [others] forall k int :: 0 <= k && k < len(cb.cells) && (k != y*cb.w+x || !inRange(cb, x, y)) ==> cb.cells[k] == old(cb.cells[k])
 //@   ensures [locked] inRange(cb, x, y) ==> cb.cells[y*cb.w+x].lock && !isDirty(cb.cells[y*cb.w+x]) &&
 //@              sameCurr(cb.cells[y*cb.w+x], old(cb.cells[y*cb.w+x])) && sameLastTail(cb.cells[y*cb.w+x], old(cb.cells[y*cb.w+x])) &&
 //@              cb.cells[y*cb.w+x].lastMain == old(cb.cells[y*cb.w+x].lastMain)
+//@   ensures [widths] wd0 ==> cbwidths(cb)
 //@   modifies cb.cells[*].lock
 
 //@ func (*CellBuffer).UnlockCell
 //@   arith math
 //@   requires cbwf(cb)
+//@   let wd0 = cbwidths(cb)
 //@   ensures [shape] shapeKept(cb, old(cb.w), old(cb.h), old(cb.cells))
 //@   ensures [others] forall k int :: 0 <= k && k < len(cb.cells) && (k != y*cb.w+x || !inRange(cb, x, y)) ==> cb.cells[k] == old(cb.cells[k])
 //@   ensures [unlocked] inRange(cb, x, y) ==> !cb.cells[y*cb.w+x].lock && isDirty(cb.cells[y*cb.w+x]) &&
 //@              sameCurr(cb.cells[y*cb.w+x], old(cb.cells[y*cb.w+x])) && sameLastTail(cb.cells[y*cb.w+x], old(cb.cells[y*cb.w+x]))
+//@   ensures [widths] wd0 ==> cbwidths(cb)
 //@   modifies cb.cells[*]
 
 //@ func (*CellBuffer).GetContent
@@ -180,6 +189,7 @@ package tcell
 //@ func (*CellBuffer).Fill
 //@   arith math
 //@   requires cbwf(cb)
+//@   let wd0 = cbwidths(cb)
 //@   ensures [shape] shapeKept(cb, old(cb.w), old(cb.h), old(cb.cells))
 //@   ensures [all] forall k int :: 0 <= k && k < len(cb.cells) ==>
 //@              cb.cells[k].currMain == r && isNil(cb.cells[k].currComb) && cb.cells[k].width == 1 &&
@@ -198,6 +208,7 @@ package tcell
 //@              cb.cells[k].lastMain == old(cb.cells[k].lastMain) && sameLastTail(cb.cells[k], old(cb.cells[k])) && cb.cells[k].lock == old(cb.cells[k].lock)
 //@           invariant [rest] forall k int :: rangeindex < k && k < len(cb.cells) ==> cb.cells[k] == old(cb.cells[k])
 //@           decreases len(cb.cells) - rangeindex
+//@   ensures [widths] wd0 ==> cbwidths(cb)
 //@   modifies cb.cells[*]
 
 //@ pred contentChanged(c0 cell, mainc rune, combc []rune) = c0.width > 0 &&
@@ -207,6 +218,7 @@ package tcell
 //@ func (*CellBuffer).SetContent
 //@   arith math
 //@   requires cbwf(cb)
+//@   let wd0 = cbwidths(cb)
 //@   ensures [shape] shapeKept(cb, old(cb.w), old(cb.h), old(cb.cells))
 //@   ensures [outside] !inRange(cb, x, y) ==> forall k int :: 0 <= k && k < len(cb.cells) ==> cb.cells[k] == old(cb.cells[k])
 //@   ensures [content] inRange(cb, x, y) ==> cb.cells[y*cb.w+x].currMain == mainc && seqeq(cb.cells[y*cb.w+x].currComb, combc)
@@ -233,11 +245,14 @@ package tcell
 //@                 cb.cells[k].lastMain == 0 && sameButLastMain(cb.cells[k], old(cb.cells[k]))
 //@           invariant [rest] forall k int :: 0 <= k && k < len(cb.cells) && !inWide(cb, x, y, k, i) ==> cb.cells[k] == old(cb.cells[k])
 //@           decreases old(cb.cells[y*cb.w+x].width) - i
+//@   ensures [widths] wd0 ==> cbwidths(cb)
 //@   modifies cb.cells[*]
 
 //@ func (*CellBuffer).Resize
 //@   arith math
 //@   requires cbwf(cb) && w >= 0 && h >= 0
+//@   opt isolate wd widths
+//@   let wd0 = cbwidths(cb)
 //@   ensures [same] old(cb.w) == w && old(cb.h) == h ==> shapeKept(cb, old(cb.w), old(cb.h), old(cb.cells))
 //@   ensures [shape] cb.w == w && cb.h == h && len(cb.cells) == w*h
 //@   ensures [fresh] !(old(cb.w) == w && old(cb.h) == h) ==> fresh(cb.cells)
@@ -246,13 +261,16 @@ package tcell
 //@              sameCurr(cb.cells[yy*w+xx], old(cb.cells[yy*cb.w+xx]))
 //@   loop 1: invariant [y] 0 <= y && len(newc) == w*h && fresh(newc) && !isNil(newc) && shapeKept(cb, old(cb.w), old(cb.h), old(cb.cells)) && !(cb.w == w && cb.h == h)
 //@           invariant [lm] forall k int :: 0 <= k && k < len(newc) ==> newc[k].lastMain == 0 && !newc[k].lock
+//@           invariant [wd] wd0 ==> forall k int :: 0 <= k && k < len(newc) ==> newc[k].width >= 0
 //@           invariant [rows] forall xx int, yy int :: 0 <= xx && xx < w && xx < cb.w && 0 <= yy && yy < y && yy < cb.h ==> sameCurr(newc[yy*w+xx], cb.cells[yy*cb.w+xx])
 //@           decreases h - y
 //@   loop 1.1: invariant [x] 0 <= x && 0 <= y && y < h && y < cb.h && len(newc) == w*h && fresh(newc) && !isNil(newc) && shapeKept(cb, old(cb.w), old(cb.h), old(cb.cells)) && !(cb.w == w && cb.h == h)
 //@           invariant [lm] forall k int :: 0 <= k && k < len(newc) ==> newc[k].lastMain == 0 && !newc[k].lock
+//@           invariant [wd] wd0 ==> forall k int :: 0 <= k && k < len(newc) ==> newc[k].width >= 0
 //@           invariant [rows] forall xx int, yy int :: 0 <= xx && xx < w && xx < cb.w && 0 <= yy && yy < y && yy < cb.h ==> sameCurr(newc[yy*w+xx], cb.cells[yy*cb.w+xx])
 //@           invariant [row] forall xx int :: 0 <= xx && xx < x && xx < w && xx < cb.w ==> sameCurr(newc[y*w+xx], cb.cells[y*cb.w+xx])
 //@           decreases w - x
+//@   ensures [widths] wd0 ==> cbwidths(cb)
 //@   modifies cb.w, cb.h, cb.cells
 
 // ---------------------------------------------------------------------------
